@@ -127,6 +127,7 @@ type Interp struct {
 	bigMat     map[int]sliceV
 	stack      []string
 	initDepth  int
+	bulkTpl    map[*ssa.Alloc]array
 }
 
 type pathEnd struct {
@@ -815,11 +816,20 @@ func (in *Interp) runFrame(fr *frame) {
 			fr.env[b.Instrs[i].(*ssa.Phi)] = phis[i]
 		}
 		jumped := false
-		for _, instr := range b.Instrs[nphi:] {
+		for ii := nphi; ii < len(b.Instrs); ii++ {
+			instr := b.Instrs[ii]
 			in.steps++
 			in.res.Stats.Steps++
 			if in.steps > in.cfg.MaxSteps {
 				panic(pathEnd{"inconclusive", "step budget exceeded"})
+			}
+			if al, ok := instr.(*ssa.Alloc); ok && al.Heap && al.Comment == "slicelit" {
+				if n := in.bulkLiteral(fr, b, ii, al); n > 0 {
+					ii += n
+					in.steps += int64(n)
+					in.res.Stats.Steps += int64(n)
+					continue
+				}
 			}
 			switch in.visitInstr(fr, instr) {
 			case kReturn:
